@@ -224,6 +224,9 @@ impl Check for C05 {
         if cx.index % 10 == 9 {
             return retry_case(cx);
         }
+        if cx.index % 10 == 4 {
+            return two_targets_case(cx);
+        }
         let mut sim = Sim::new(cx.rng.gen(), false);
         sim.policy = Policy::Fifo;
         let ckp = gen::ed_keypair(&mut cx.rng);
@@ -512,6 +515,73 @@ impl Check for C05 {
 
 /// A read that retries: every attempt is its own kad query; a quorum is Q distinct peers agreeing WITHIN one
 /// attempt - the same holders answering again in the next attempt add nothing.
+/// Two (or three) concurrent readers of ONE key that expect DIFFERENT records (a put verifying the version it just wrote
+/// racing a put - or read - that expects another one), same quorum: each outcome is judged against its own expectation.
+fn two_targets_case(cx: &mut Cx) {
+    use crate::clientsim::{ClientSim, Order, Reply};
+    let mut cs = ClientSim::new(&mut cx.rng);
+    let kind = *[Kind::Pad, Kind::Txs, Kind::Chunk].choose(&mut cx.rng).expect("nonempty");
+    let v = make_versions(cx, kind, 2);
+    if v.bytes.len() < 2 || v.bytes[0] == v.bytes[1] {
+        return;
+    }
+    let quorum = match cx.rng.gen_range(0..3) {
+        0 => Quorum::One,
+        1 => Quorum::Majority,
+        _ => Quorum::N(NonZeroUsize::new(cx.rng.gen_range(1..=4)).expect("nz")),
+    };
+    let q = quorum_value(&quorum);
+    // which version the holders have, and what each reader expects (reader 0 always expects what the holders have or the
+    // other one at random; at least two readers differ)
+    let held = cx.rng.gen_range(0..2usize);
+    let nreaders = cx.rng.gen_range(2..=3usize);
+    let mut expects: Vec<usize> = (0..nreaders).map(|_| cx.rng.gen_range(0..2usize)).collect();
+    expects[1] = 1 - expects[0];
+    let mut handles = vec![];
+    for e in &expects {
+        let cfg = GetRecordCfg { get_quorum: quorum, retry_strategy: None, target_record: Some(gen::record(v.key.clone(), v.bytes[*e].clone())), expected_holders: Default::default(), is_register: false };
+        let (network, key) = (cs.sim.nodes[cs.ci].network.clone(), v.key.clone());
+        handles.push(cs.sim.spawn(async move { network.get_record_from_network(key, &cfg).await }));
+    }
+    let value = v.bytes[held].clone();
+    let mut drive_rng = cx.rng.clone();
+    let finished = {
+        let mut done = || handles.iter().all(|h| h.is_finished());
+        let mut answer = |_k: &RecordKey, _nth: usize| -> Vec<Reply> {
+            let mut r: Vec<Reply> = (0..q + 1).map(|p| Reply::Found(p, value.clone())).collect();
+            r.push(Reply::Finished);
+            r
+        };
+        cs.drive(&mut drive_rng, &Order::Fifo, &mut done, &mut answer)
+    };
+    if !finished {
+        for h in &handles {
+            h.abort();
+        }
+        cx.inconclusive("readers with different expectations did not finish");
+        return;
+    }
+    cx.count("readers-with-different-expected-records");
+    cx.nontrivial(&("two-targets", format!("{kind:?}"), q, held, &expects));
+    let w = json!({"kind": format!("{kind:?}"), "quorum": q, "holders_have_version": held, "readers_expect": expects});
+    for (i, h) in handles.into_iter().enumerate() {
+        cx.eval();
+        match cs.sim.rt.block_on(h) {
+            Ok(Ok(r)) => {
+                if r.value != v.bytes[expects[i]] {
+                    cx.violation("value-differs-from-expected-target:reader-with-its-own-expectation", format!("reader {i} expects version {} of the key; another reader of the same key expects version {}; all holders have version {held}; reader {i} was handed a success with a value that is not what it expects", expects[i], 1 - expects[i]), w.clone());
+                }
+            }
+            Ok(Err(_)) => {
+                if expects[i] == held && kind != Kind::Txs {
+                    cx.violation("expected-record-held-by-a-quorum-but-read-failed:reader-with-its-own-expectation", format!("reader {i} expects version {held}, which {} holders returned (quorum {q}), yet its read failed while another reader expected the other version", q + 1), w.clone());
+                }
+            }
+            Err(e) => cx.violation("caller-task-died", format!("{e}"), w.clone()),
+        }
+    }
+}
+
 fn retry_case(cx: &mut Cx) {
     use crate::clientsim::{ClientSim, Order, Reply};
     use ant_protocol::storage::RetryStrategy;
